@@ -418,10 +418,54 @@ def r6(ctx):
         raise AnalysisBroken('C14.R6: info buffer write not found')
 
 
+def r8(ctx):
+    ctx.rule('C14.R8', 'the info buffer holds the request ID and the longest response the decoder gives a meaning to: its size '
+             'is at least 1 + the largest length among the case labels of notifyInfoRetrieved ((len << 8) | id) and the '
+             '`length` values of docs/enhanced_proto.md; a smaller buffer drops a documented response as invalid', minimum=1)
+    fb = ctx.fb
+    dec = fb.fn(DEC)
+    bound = None
+    for nid, v in sorted(dec.nodes.items()):
+        if v['k'] == 'ArraySubscriptExpr' and dec.key(v['base']) == 'this.m_infoBuf' and v.get('bound'):
+            bound = v['bound']
+    fn = fb.fn('ebusd::EnhancedDevice::notifyInfoRetrieved')
+    ctx.touch(fn)
+    lens = []
+    for sw in fn.all('SwitchStmt'):
+        c = fn.nodes[fn.strip(fn.nodes[sw]['cond'], casts=True)]
+        if c.get('k') != 'BinaryOperator' or c.get('op') != '|':
+            continue
+        sides = [fn.nodes[fn.strip(c[x], casts=True)] for x in ('lhs', 'rhs')]
+        sh = [x for x in sides if x.get('k') == 'BinaryOperator' and x.get('op') == '<<' and fn.val(x['rhs']) == 8]
+        if len(sh) != 1:
+            continue
+        shifted = fn.ref_decl(sh[0]['lhs'])
+        lenvar = [d for nid, d, rhs, op, lhs in fn.assignments() if op == 'init' and rhs is not None and 'm_infoLen' in fn.key(rhs)]
+        high_is_len = shifted in lenvar
+        for cs in fn.all('CaseStmt'):
+            v = fn.nodes[cs].get('v')
+            if v is None:
+                v = fn.val(fn.nodes[cs].get('lhs')) if fn.nodes[cs].get('lhs') is not None else None
+            if v is not None:
+                lens.append((v >> 8) if high_is_len else (v & 0xff))
+    import re
+    try:
+        doc = open(os.path.join(facts.REPO, 'docs', 'enhanced_proto.md')).read()
+    except OSError:
+        raise AnalysisBroken('C14.R8: docs/enhanced_proto.md not readable')
+    doclens = [int(m) for m in re.findall(r'`length`: =(\d+)', doc)]
+    if bound is None or not lens or not doclens:
+        raise AnalysisBroken('C14.R8: info buffer bound (%s), case labels (%d) or documented lengths (%d) not found' % (bound, len(lens), len(doclens)))
+    need = 1 + max(lens + doclens)
+    ctx.ob('C14.R8', fn, fn.body, bound >= need, 'capacity of m_infoBuf', 'm_infoBuf has %d bytes, the longest handled/documented '
+           'response needs %d (ID + %d data bytes)' % (bound, need, need - 1))
+
+
 def r7(ctx):
     ctx.rule('C14.R7', 'FileTransport::read appends at m_buffer + m_bufLen with at most m_bufSize - m_bufLen bytes and hands '
              'out the whole buffer; readConsumed keeps exactly the unconsumed tail (memmove of m_bufLen - len bytes from offset '
-             'len) and never leaves a length beyond the data', minimum=3)
+             'len) and never leaves a length beyond the data; behind the device read m_bufLen only grows by the number of bytes read',
+             minimum=4)
     fb = ctx.fb
     fn = fb.fn('ebusd::FileTransport::read')
     ctx.touch(fn)
@@ -429,9 +473,26 @@ def r7(ctx):
     if not reads:
         raise AnalysisBroken('C14.R7: ::read call not found')
     for c in reads:
-        a = [fn.key(x) for x in fn.nodes[c]['args']]
+        a = [fn.xkey(x) for x in fn.nodes[c]['args']]
         ok = a[1:] == ['(this.m_buffer + this.m_bufLen)', '(this.m_bufSize - this.m_bufLen)']
         ctx.ob('C14.R7', fn, c, ok, 'device read', 'read(fd, %s, %s)' % (a[1], a[2]))
+    # the bytes are accounted where they were put: behind the ::read the only change of m_bufLen is the addition of the
+    # number of bytes read (a reset in between would hand out stale bytes in place of the new ones)
+    for c in reads:
+        cb, ci = fn.pos(c)
+        sz = None
+        for nid, d, rhs, op, lhs in fn.assignments():
+            if rhs is not None and c in list(fn.walk(rhs)) and d:
+                sz = d
+        later = []
+        for nid, d, rhs, op, lhs in fn.assignments():
+            if d != 'this.m_bufLen' or fn.pos(nid) is None:
+                continue
+            if fn.reaches_point(cb, fn.pos(nid), set(), ci + 1):
+                later.append((nid, op, fn.ref_decl(rhs) if rhs is not None else None))
+        ok = bool(later) and all(op == '+=' and rd == sz and sz is not None for _, op, rd in later)
+        ctx.ob('C14.R7', fn, c, ok, 'accounting of the bytes read',
+               'writes to m_bufLen behind the device read: %s' % [(fn.line_of(x), op) for x, op, _ in later])
     rc = fb.fn('ebusd::FileTransport::readConsumed')
     ctx.touch(rc)
     mm = [c for c in rc.all('CallExpr') if rc.nodes[c].get('callee') in ('memmove', 'memcpy')]
@@ -460,3 +521,4 @@ def run(ctx):
     r4(ctx, vals)
     r6(ctx)
     r7(ctx)
+    r8(ctx)
